@@ -161,6 +161,15 @@ def _build0(d, maxdim):
     if d.pick(2):
         args.reverse()
     fn = d.choice(AGGS)
+    if fn in ('MIN', 'MAX') and d.pick(3) == 0:
+        # whole NEIGHBOURS that no double can tell apart, planted into two
+        # (three) cells; one sign per grid, so that sums do not cancel
+        a, b = d.choice([(2 ** 53, 2 ** 53 + 1), (10 ** 17, 10 ** 17 + 7),
+                         (-(2 ** 53) - 1, -(2 ** 53)),
+                         (2 ** 53 + 1, 2 ** 53 + 2)])
+        trio = [a, b, d.choice([a, b, float(a) if float(a) == a else a])]
+        for v in trio[:2 + d.pick(2)]:
+            grid[d.pick(h)][d.pick(w)] = v
     case = {'kind': 'agg', 'fn': fn, 'grid': grid, 'args': args,
             'shuffle': d.pick(7)}
     if d.pick(3) == 0:
@@ -228,7 +237,7 @@ def cells_of(grid, ref):
     return out
 
 
-def fold(fn, grid, args, grid2=None):
+def fold(fn, grid, args, grid2=None, exact=False):
     nums, nonempty = [], 0
     for kind, a in args:
         if kind == 'n':
@@ -250,7 +259,24 @@ def fold(fn, grid, args, grid2=None):
         return None
     if fn == 'AVERAGE':
         return math.fsum(nums) / len(nums)
+    if exact:
+        return min(nums) if fn == 'MIN' else max(nums)
     return float(min(nums) if fn == 'MIN' else max(nums))
+
+
+def _whole(raw):
+    """the exact whole number a result stands for (None: not whole)"""
+    v = getattr(raw, 'value', raw)
+    if isinstance(v, bool):
+        return None
+    if hasattr(v, 'item') and not isinstance(v, (int, float)):
+        v = v.item()
+    if isinstance(v, int):
+        return v
+    if isinstance(v, float) and v == v and abs(v) != float('inf') \
+            and v.is_integer():
+        return int(v)
+    return None
 
 
 def _cells(grid, sheet='Sheet1', r0=0, c0=0):
@@ -364,6 +390,23 @@ def _judge(case):
     rev = lib.evaluate(model, F + 'XFA2', ev)
     if not close(obs, rev, rel=1e-12):
         res.fail('permute-args:%s' % fn, obs, rev, cells[F + 'XFA2'])
+    if fn in ('MIN', 'MAX'):
+        # selection is EXACT: the extreme is one of the addressed values,
+        # also among whole numbers that no tolerance can tell apart
+        # (2^53 and 2^53+1), and whatever the order of the arguments
+        e = fold(fn, grid, args, grid2, exact=True)
+        ew = _whole(e)
+        try:
+            r1 = _whole(ev.evaluate(F + 'XFA1'))
+            r2 = _whole(ev.evaluate(F + 'XFA2'))
+        except Exception:  # noqa: BLE001 - reported above
+            r1 = r2 = None
+        if ew is not None and r1 is not None and r1 != ew:
+            res.fail('fold-exact:%s' % fn, str(ew), str(r1),
+                     cells[F + 'XFA1'])
+        elif r1 is not None and r2 is not None and r1 != r2:
+            res.fail('permute-args-exact:%s' % fn, str(r1), str(r2),
+                     cells[F + 'XFA2'])
     if nnum + sum(1 for a in args if a[0] == 'n') > 0:
         mn, av, mx = (lib.evaluate(model, F + 'XFA%d' % i, ev)
                       for i in (3, 4, 5))
